@@ -14,9 +14,10 @@ const pkgCache = "utils/cache"
 func checkC13(c *Ctx, r *Report) {
 	const tBMC, tLRU = pkgCache + ".BlobMemoryCache", pkgCache + ".LRUCache"
 	const fTotal = tBMC + ".totalSize"
-	r.Explain = "Accounting discipline of the memory blob cache and the key LRU cache: (R1) their state is accessed under their mutexes; (R2) totalSize is written only by the reservation, release and removal primitives; (R3) the reservation is added only on the admitted side of the budget test against MaxSize; (R4) the only caller of ReleaseReservation is the write-through entry point, which releases exactly once on every path where the memory write failed and never on the success path; (R5) an entry is added only where the reserved size was compared equal with the number of bytes stored, because removal releases len(data); every removal of an entry releases its size; (R6) the LRU cache evicts on every insertion of a new key and Has tests expiry."
-	r.NotDecided = "The numeric bound itself (sum of entries ≤ MaxSize) as an inductive invariant; LRU order of keys."
+	r.Explain = "Accounting discipline of the memory blob cache and the key LRU cache: (R1) their state is accessed under their mutexes; (R2) totalSize is written only by the reservation, release and removal primitives; (R3) the reservation is added only on the admitted side of the budget test against MaxSize; (R4) the only caller of ReleaseReservation is the write-through entry point, which releases exactly once on every path where the memory write failed and never on the success path; (R5) an entry is added only where the reserved size was compared equal with the number of bytes stored, because removal releases len(data); every removal of an entry releases its size; (R6) the LRU cache evicts on every insertion of a new key and Has tests expiry; (R7) a key leaves the key set and the order list together."
+	r.NotDecided = "The numeric bound itself (sum of entries ≤ MaxSize) as an inductive invariant; that the order list is sorted by recency (only its agreement with the key set is decided)."
 
+	defer rulesLRUOrderCoupdate(c, r)
 	r1 := r.Rule("R1", "E-LOCK", "BlobMemoryCache.entries/totalSize and LRUCache.entries/lruOrder are accessed under their mutex (write mode for writes)", 10)
 	checkLockRows(c, r, r1, []string{pkgCache}, []LockRow{
 		{Struct: tBMC, Mutex: "mu", Fields: []string{"entries", "totalSize"}, Ctors: []string{pkgCache + ".NewBlobMemoryCache"}},
